@@ -283,7 +283,17 @@ def aggregation_dicts(kind: str) -> dict:
         for node in tree.body:
             if isinstance(node, ast.Assign) and len(node.targets) == 1 and isinstance(node.targets[0], ast.Name) \
                     and node.targets[0].id.startswith(f"{kind}_"):
-                out.update(_eval_literal(node.value, {}))
+                v = node.value
+                if isinstance(v, ast.Call) and getattr(v.func, "id", "") == "_add_grouping_suffixes_to_keys":
+                    base = _eval_literal(v.args[0], {})
+                    for key, spec in base.items():
+                        for g in config_tables()["SUPPORTED_GROUPINGS"]:
+                            out[f"{key}_{g}"] = spec
+                else:
+                    lit = _eval_literal(v, {})
+                    if not isinstance(lit, dict):
+                        raise ValueError(f"cannot read aggregation dictionary {node.targets[0].id} in {path}")
+                    out.update(lit)
     return out
 
 
